@@ -217,6 +217,10 @@ class Worker:
         return parse_result(lines)
 
 
+# legacy idioms that UBSan flags although no memory is touched (pointer one before an array that is only used as p + 1)
+BENIGN_UB = [r'lib/efuns/file\.c:230:\d+: runtime error: index -1 out of bounds']
+
+
 class Violation:
     def __init__(self, prop, oracle, detail, cls=None):
         self.prop = prop; self.oracle = oracle; self.detail = detail
@@ -235,6 +239,14 @@ def generic_crash_violations(prop, res, sanitizer_counts=True):
     if kind == 'exit' and code == 0:
         if not res.ok:
             v.append(Violation(prop, 'early-return', 'run ended without END marker'))
+        # UBSan runs in recover mode: reports are judged here, benign legacy idioms are filtered
+        for m in re.finditer(r'(\S+?):(\d+):\d+: runtime error: ([^\n]*)', res.stderr or ''):
+            where, line, what = m.group(1).replace('/repo/', ''), m.group(2), m.group(3)
+            if any(re.search(b, m.group(0)) for b in BENIGN_UB): continue
+            fn = re.search(r'#0 0x[0-9a-f]+ in (\S+)', res.stderr[m.end():m.end() + 300])
+            v.append(Violation(prop, 'sanitizer', 'UndefinedBehaviorSanitizer: %s at %s:%s' % (what[:120], where, line),
+                               '%s/sanitizer/%s/%s' % (prop, re.sub(r'[^a-z]+', '-', what.split(' for ')[0].split(' of type')[0].lower())[:40].strip('-'), fn.group(1) if fn else where)))
+            break
         return v
     detail = '%s %s' % (kind, code)
     if kind == 'exit' and code == 77:
